@@ -17,7 +17,7 @@ func init() { register(&Check{ID: "C01", Race: true, Run: runC01}) }
 
 func genEvTumbling(ref core.CaseRef, r *rand.Rand, alShare int) *evCase {
 	c := &evCase{CaseRef: ref, Kind: "tumbling"}
-	c.SizeMs = pick(r, []int64{250, 1000, 1000, 2000, 60000})
+	c.SizeMs = pick(r, []int64{250, 1000, 1000, 2000, 60000, 700, 1300, 7000, 11000, 13000})
 	c.MooMs = pick(r, []int64{0, 0, c.SizeMs / 2, 2 * c.SizeMs, 5 * c.SizeMs})
 	if r.Intn(100) < alShare {
 		c.AlMs = pick(r, []int64{c.SizeMs, 3 * c.SizeMs})
@@ -276,7 +276,7 @@ func c01ptInstall() {
 func execC01PT(ctx *core.Ctx, ref core.CaseRef, r *rand.Rand) {
 	c01ptInstall()
 	c := &c01ptCase{CaseRef: ref}
-	c.SizeMs = pick(r, []int{40, 60, 100, 200})
+	c.SizeMs = pick(r, []int{40, 60, 100, 200, 70, 130})
 	c.Producers = 1 + r.Intn(3)
 	c.Rows = 150 + r.Intn(300)
 	c.PaceUs = 500 + r.Intn(3000)
